@@ -1,6 +1,8 @@
 package main
 
 import (
+	_ "time/tzdata" // named locations independent of the host's zoneinfo
+
 	"bytes"
 	"encoding/json"
 	"fmt"
@@ -8,6 +10,7 @@ import (
 	"time"
 
 	"verif/harness/refdata"
+	"verif/harness/rt"
 )
 
 // C05, zone leg. ASE temporal types carry no zone; a driver hands the
@@ -24,16 +27,30 @@ type c05ZoneCase struct {
 	Type   string `json:"type"`
 	Wall   string `json:"wall_clock"` // RFC3339Nano of the wall-clock reading, in UTC
 	Offset int    `json:"zone_offset_seconds"`
+	// Loc: a named location with daylight saving (from the embedded
+	// time/tzdata) instead of a fixed offset
+	Loc string `json:"location,omitempty"`
 }
 
 var c05ZoneMu sync.Mutex
 var c05ZoneReading = map[string]string{} // family -> reading seen where the two differ
 
-func (j *c05Judge) zoneOne(acc *dtAcc, vr *dtVariant, wall time.Time, offset int) {
+func (j *c05Judge) zoneOne(acc *dtAcc, vr *dtVariant, wall time.Time, offset int, locName string) {
 	r := j.c.R
-	cs := c05ZoneCase{Zone: "zone", Type: vr.label(), Wall: wall.Format(time.RFC3339Nano), Offset: offset}
+	cs := c05ZoneCase{Zone: "zone", Type: vr.label(), Wall: wall.Format(time.RFC3339Nano), Offset: offset, Loc: locName}
 	loc := time.FixedZone(fmt.Sprintf("UTC%+d", offset), offset)
+	if locName != "" {
+		l, err := time.LoadLocation(locName)
+		if err != nil {
+			r.Inconclusive("C05 zone leg: location %s not available: %v", locName, err)
+			return
+		}
+		loc = l
+	}
 	tz := time.Date(wall.Year(), wall.Month(), wall.Day(), wall.Hour(), wall.Minute(), wall.Second(), wall.Nanosecond(), loc)
+	if tz.Hour() != wall.Hour() || tz.Minute() != wall.Minute() || tz.Day() != wall.Day() {
+		return // a wall-clock reading that does not exist in the location (inside the spring gap)
+	}
 	length := int64(vr.Len)
 	oz := dtLibBytes(vr, tz, length)
 	ow := dtLibBytes(vr, wall, length)
@@ -92,13 +109,27 @@ func (j *c05Judge) zoneWalls() []time.Time {
 var c05ZoneOffsets = []int{2 * 3600, -5 * 3600, 5*3600 + 45*60, 14 * 3600, -12 * 3600, 1}
 
 func (j *c05Judge) zones(acc *dtAcc) {
+	dtZoneIter(j.zoneWalls(), func(vr *dtVariant, w time.Time, off int, ln string) { j.zoneOne(acc, vr, w, off, ln) })
+}
+
+// dtZoneIter enumerates the zone leg's cases (shared by C04 and C05).
+func dtZoneIter(walls []time.Time, f func(vr *dtVariant, wall time.Time, offset int, loc string)) {
 	for _, vr := range dtVariants {
 		if vr.K != dkTime {
 			continue
 		}
-		for _, w := range j.zoneWalls() {
+		for _, w := range walls {
 			for _, off := range c05ZoneOffsets {
-				j.zoneOne(acc, vr, w, off)
+				f(vr, w, off, "")
+			}
+		}
+		// named locations on the days their clocks change (the time elapsed
+		// since local midnight differs from the wall clock then)
+		for _, ln := range []string{"America/New_York", "Europe/Berlin", "Australia/Lord_Howe", "America/Sao_Paulo"} {
+			for _, d := range [][3]int{{2021, 3, 14}, {2021, 11, 7}, {2021, 3, 28}, {2021, 10, 31}, {2021, 4, 4}, {2021, 10, 3}, {2018, 11, 4}, {2018, 2, 18}, {2021, 6, 15}} {
+				for _, c := range [][4]int{{0, 0, 0, 0}, {0, 30, 0, 0}, {1, 30, 0, 0}, {3, 30, 15, 250000000}, {12, 0, 0, 0}, {23, 59, 59, 999999000}} {
+					f(vr, time.Date(d[0], time.Month(d[1]), d[2], c[0], c[1], c[2], c[3], time.UTC), 0, ln)
+				}
 			}
 		}
 	}
@@ -162,8 +193,60 @@ func (j *c05Judge) zoneReplay(acc *dtAcc, raw json.RawMessage) bool {
 		j.dateClock(acc, vr, w.UTC())
 		return true
 	}
-	j.zoneOne(acc, vr, w.UTC(), cs.Offset)
+	j.zoneOne(acc, vr, w.UTC(), cs.Offset, cs.Loc)
 	return true
 }
 
 var _ = refdata.Day1900
+
+// c04ZoneRoundTrip: encoding and decoding a time value of a non-UTC location
+// yields what encoding and decoding its wall-clock reading, or its UTC
+// instant, yields (the main leg judges those against the value itself).
+func c04ZoneRoundTrip(r *rt.Result, acc *dtAcc, vr *dtVariant, wall time.Time, offset int, locName string) {
+	cs := c05ZoneCase{Zone: "zone", Type: vr.label(), Wall: wall.Format(time.RFC3339Nano), Offset: offset, Loc: locName}
+	loc := time.FixedZone(fmt.Sprintf("UTC%+d", offset), offset)
+	if locName != "" {
+		l, err := time.LoadLocation(locName)
+		if err != nil {
+			r.Inconclusive("C04 zone leg: location %s not available: %v", locName, err)
+			return
+		}
+		loc = l
+	}
+	tz := time.Date(wall.Year(), wall.Month(), wall.Day(), wall.Hour(), wall.Minute(), wall.Second(), wall.Nanosecond(), loc)
+	if tz.Hour() != wall.Hour() || tz.Minute() != wall.Minute() || tz.Day() != wall.Day() {
+		return
+	}
+	trip := func(t time.Time) (time.Time, bool, *rt.PanicInfo) {
+		o := dtLibBytes(vr, t, int64(vr.Len))
+		if o.panic != nil || o.err != nil {
+			return time.Time{}, false, o.panic
+		}
+		g := dtLibGoValue(vr, o.bs)
+		if g.panic != nil || g.err != nil {
+			return time.Time{}, false, g.panic
+		}
+		tv, ok := g.val.(time.Time)
+		return tv, ok, nil
+	}
+	acc.counts["zone_roundtrips"]++
+	r.Eval(1)
+	gz, okz, pz := trip(tz)
+	gw, okw, _ := trip(wall)
+	gi, oki, _ := trip(tz.UTC())
+	if pz != nil {
+		r.Violate("panic/"+pz.Frame+"/zone", fmt.Sprintf("%s: round trip of %s panicked: %s", vr.label(), tz.Format(time.RFC3339Nano), pz.Value), cs)
+		return
+	}
+	if !okw {
+		return
+	}
+	if !okz {
+		r.Violate("zone-roundtrip/refused/"+vr.Fam, fmt.Sprintf("%s: %s cannot be encoded and decoded although the same reading in UTC can", vr.label(), tz.Format(time.RFC3339Nano)), cs)
+		return
+	}
+	if gz.Equal(gw) || (oki && gz.Equal(gi)) {
+		return
+	}
+	r.Violate("zone-roundtrip/neither-wall-clock-nor-instant/"+vr.Fam, fmt.Sprintf("%s: %s encoded and decoded gives %s; its wall-clock reading gives %s, its UTC instant %s", vr.label(), tz.Format(time.RFC3339Nano), gz.Format(time.RFC3339Nano), gw.Format(time.RFC3339Nano), gi.Format(time.RFC3339Nano)), cs)
+}
